@@ -110,6 +110,11 @@ Lemma for_sizes n0 : csize (for_test n0) = 7 /\ csize (for_fetch n0) = 10 /\ csi
   csize (rng_loop n0) = 46.
 Proof. repeat split; reflexivity. Qed.
 
+Lemma some3_inj {A B C} (a a' : A) (b b' : B) (c c' : C) : Some (a, b, c) = Some (a', b', c') -> a = a' /\ b = b' /\ c = c'.
+Proof. intros H. inversion H. auto. Qed.
+Lemma some2_inj {A B} (a a' : A) (b b' : B) : Some (a, b) = Some (a', b') -> a = a' /\ b = b'.
+Proof. intros H. inversion H. auto. Qed.
+
 (* ---------- lookups ---------- *)
 Lemma cfind_from_snoc x l y : forall i acc,
   cfind_from x (l ++ [y]) i acc = if N.eqb x y then Some (i + length l) else cfind_from x l i acc.
@@ -280,7 +285,7 @@ Proof.
     match type of H with context [compile_stmt G ?q ?l ?e body p2] =>
       destruct (compile_stmt G q l e body p2) as [[[cb ce1] p3]|] eqn:E1; [|discriminate] end.
     destruct (IHb _ _ _ _ _ _ _ E1) as [[x1 ->] P1]. rewrite hide_from_app in H.
-    injection H as _ Hce Hp. subst ce' p'.
+    apply some3_inj in H. destruct H as (_ & Hce & Hp). subst ce' p'.
     split.
     + exists ([H_RANGE_END; H_RANGE_I; H_RANGE_ARR; H_FOR_ARR; H_FOR_IDX; H_FOR_LEN] ++ HIDDEN :: repeat HIDDEN (length x1)).
       unfold for_ce.
